@@ -1749,6 +1749,15 @@ impl<'a> Run<'a> {
             // C03: the tower must resume from a block it had finished processing. Resuming *behind* is fine (blocks are
             // processed again); resuming *ahead* skips blocks whose breaches / confirmations nobody will ever handle.
             let done = self.model.tip();
+            // (Resuming on a never-shown block of the same height as the processed tip -- an equal-work sibling -- is counted
+            // but not judged: the open C03 finding (persisted target tip after a failed download during a reorganisation)
+            // produces the same picture, and the two could not be told apart soundly; see DESIGN.md 8.4, C04-h.)
+            if start_tip != done
+                && !self.model.ever_shown.contains(&start_tip)
+                && node.blocks.get(&start_tip).map(|b| b.1) == Some(self.model.h)
+            {
+                self.model.probe("restart_on_never_shown_sibling");
+            }
             if start_tip != done {
                 // Walk back from where the tower resumes until a block of the chain it had processed: every block on the way
                 // that it was never shown is skipped for good.
@@ -1930,7 +1939,10 @@ impl<'a> Run<'a> {
                     let avail = self.model.users[&eu].available as i64;
                     let loc = self.model.locator(d);
                     let app = Appointment::new(loc, blob_bytes.clone(), tsd);
-                    let sig_str = self.sign_cached(eu, &app.to_vec());
+                    let mut sig_str = self.sign_cached(eu, &app.to_vec());
+                    if sig == Sig::GoodUpper {
+                        sig_str = sig_str.to_ascii_uppercase();
+                    }
                     self.model.remember_verdicts(&rpcs_of(&events));
                     self.model.crash_allow = Some(crate::model::CrashAllow::Add {
                         u: eu,
